@@ -172,8 +172,9 @@ class Ctx:
         r = sh(["lake", "build"] + list(targets), cwd=LEAN)
         return r.returncode == 0, (r.stdout + r.stderr)
 
-    def driver(self):
-        return os.path.join(LEAN, ".lake", "build", "bin", "driver")
+    def driver(self, name=None):
+        """native Lean driver of this property's area (drv_cXX), or of another area"""
+        return os.path.join(LEAN, ".lake", "build", "bin", name or ("drv_" + self.id.lower()))
 
     def theorems_of(self, rel):
         """Fully qualified names of the theorems of a Props file."""
@@ -243,9 +244,9 @@ class Ctx:
             self.trusted.update(res.get(n, []))
         return not problems, res, problems
 
-    def prove(self, targets, props, allow=STD_AXIOMS):
+    def prove(self, targets, props, allow=STD_AXIOMS, drivers=None):
         """lake build + hygiene + audit.  Records obligations.  Returns (ok, log)."""
-        ok, log = self.lake_build(list(targets) + ["driver"])
+        ok, log = self.lake_build(list(targets) + list(drivers if drivers is not None else ["drv_" + self.id.lower()]))
         names = []
         for rel in props:
             names += self.theorems_of(rel)
@@ -274,7 +275,7 @@ class Ctx:
         p = subprocess.run([exe], input="\n".join(lines) + "\n", capture_output=True, text=True, env=e, timeout=timeout)
         return p.stdout.split("\n")[:-1] if p.stdout.endswith("\n") else p.stdout.split("\n"), p.stderr, p.returncode
 
-    def diff_run(self, exe, lines, label="", env=None):
+    def diff_run(self, exe, lines, label="", env=None, driver=None):
         """Run the C harness and the Lean driver on the same op lines; list of
         (index, op, c_out, lean_out) where they differ.  A harness crash (sanitizer abort)
         is located by bisection and reported as c_out='CRASH: ...'."""
@@ -286,7 +287,7 @@ class Ctx:
             summ = [l for l in msg if "ERROR" in l or "SUMMARY" in l or "Assertion" in l or "runtime error" in l][:3]
             c_out = c_out[:k] + ["CRASH(rc=%d): %s" % (rc, " | ".join(summ) or msg[-1][:200])]
             lines = lines[:k + 1]
-        l_out, l_err, lrc = self.run_lines(self.driver(), lines)
+        l_out, l_err, lrc = self.run_lines(self.driver(driver), lines)
         if lrc != 0 or len(l_out) != len(lines):
             raise RuntimeError("Lean driver failed (rc=%d) on %s: %s" % (lrc, label, l_err[-500:]))
         mism = [(i, lines[i], c_out[i], l_out[i]) for i in range(len(lines)) if c_out[i] != l_out[i]]
